@@ -2,16 +2,34 @@
    in Proofs/C19.v; Print Assumptions beneath each. *)
 From Coq Require Import List NArith Bool.
 Import ListNotations.
-Require Import Verif.Lib.Wire Verif.Lib.Utf8 Verif.Gen.Facts_C19 Verif.Model.C19 Verif.Proofs.C19.
+Require Import Verif.Lib.Wire Verif.Lib.Utf8 Verif.Model.C19_base Verif.Gen.Facts_C19 Verif.Model.C19 Verif.Proofs.C19 Verif.Proofs.C19_gen.
 Open Scope N_scope.
 
-(* prepare() as written (branch choices, escape function per branch, args table, loops'
-   escaping: all regenerated from the source) renders exactly what the specification policy
-   renders -- html_escape on every supplied text in the HTML form, text as is in the JSON and
-   plain forms -- for every input *)
-Theorem C19_model_meets_spec : forall i, model i = spec i.
-Proof. exact model_meets_spec. Qed.
-Print Assumptions C19_model_meets_spec.
+(* ---- the program REGENERATED from the source on this run equals the reference model.
+   [model] runs gen_init / gen_move_init, then gen_call (= gen_prepare, then Response.__call__)
+   of Gen/Facts_C19.v; [spec] is the hand-written prepare under the specification policy
+   (html_escape on every supplied text in the HTML form, text as is in JSON / plain). *)
+Theorem C19_generated_is_spec : forall i, model i = spec i.
+Proof. exact generated_is_spec. Qed.
+Print Assumptions C19_generated_is_spec.
+
+(* the constructors: HTTPException.__init__ and _HTTPMove.__init__ build the reference object *)
+Theorem C19_generated_object_is_model : forall c i, gen_obj c i = ref_obj c i.
+Proof. exact gen_obj_is_model. Qed.
+Print Assumptions C19_generated_object_is_model.
+
+(* prepare() on an object without a body, for every negotiation oracle *)
+Theorem C19_generated_prepare_is_model : forall neg c i o,
+  fresh_like c i o ->
+  i_offers i = neg (env_get accept_key accept_default (i_environ i)) offers ->
+  gen_prepare neg o (i_environ i) = ref_prepare c i o.
+Proof. exact gen_prepare_is_model. Qed.
+Print Assumptions C19_generated_prepare_is_model.
+
+(* prepare() on an object that already carries a body does nothing *)
+Theorem C19_generated_prepare_stored : forall neg o env, ob_body o <> [] -> gen_prepare neg o env = Ok o.
+Proof. exact gen_prepare_stored. Qed.
+Print Assumptions C19_generated_prepare_stored.
 
 (* Template.substitute is one left-to-right pass: the token list depends on the template only,
    and the result is the concatenation of template characters, '$' for '$$' and the mapping's
@@ -210,13 +228,13 @@ Print Assumptions C19_json_roundtrip_any.
    single-call rendering for one of the calls made so far: a content type never labels a body
    rendered for another form, and the body obeys the escaping rule of its form. *)
 Theorem C19_history_consistent : forall i l k o,
-  nth_error (model_calls i l) k = Some (Some (Ok o)) ->
+  nth_error (ref_calls i l) k = Some (Some (Ok o)) ->
   exists j s, (j <= k)%nat /\ nth_error l j = Some s /\ spec (with_call i s) = Some (Ok o).
 Proof. exact history_consistent. Qed.
 Print Assumptions C19_history_consistent.
 
 (* the executable form of the same statement, used to judge observed histories *)
-Theorem C19_history_check : forall i l, history_ok (model_calls i l) (spec_singles i l) = true.
+Theorem C19_history_check : forall i l, history_ok (ref_calls i l) (spec_singles i l) = true.
 Proof. exact history_consistent_b. Qed.
 Print Assumptions C19_history_check.
 
@@ -229,7 +247,7 @@ Print Assumptions C19_history_check_sound.
 
 (* the first call is an ordinary rendering; once a non-empty body is stored every call repeats it *)
 Theorem C19_history_first : forall i s r,
-  model_calls i (s :: r) = spec (with_call i s) :: calls spec_policy i (stored (spec (with_call i s))) r.
+  ref_calls i (s :: r) = spec (with_call i s) :: calls spec_policy i (stored (spec (with_call i s))) r.
 Proof. exact history_first. Qed.
 Print Assumptions C19_history_first.
 
